@@ -191,6 +191,30 @@ def run_case(case: Dict) -> CaseResult:
     seen_create: Dict = {}
     seen_delete: Dict = {}
     nontrivial = False
+    # every file / folder object ever observed in one of the sets, with its container: "never neither" needs the
+    # history, a vanished item is by definition in no set that could be inspected afterwards
+    reg_files: Dict[int, Any] = {}
+    reg_folders: Dict[int, Any] = {}
+
+    def registry_ok(when) -> bool:
+        for fol in list(fs.folders.values()) + list(fs.deleted_folders.values()):
+            reg_folders[id(fol)] = fol
+        for fol in reg_folders.values():
+            for x in list(fol.files.values()) + list(fol.deleted_files.values()):
+                reg_files[id(x)] = (x, fol)
+        ok = True
+        for fol in reg_folders.values():
+            if not any(v is fol for v in fs.folders.values()) and not any(v is fol for v in fs.deleted_folders.values()):
+                res.violate("folder-in-neither-set", f"{when}: folder {fol.name} (seen earlier) is neither live nor deleted")
+                ok = False
+        for x, fol in reg_files.values():
+            if not any(v is x for v in fol.files.values()) and not any(v is x for v in fol.deleted_files.values()):
+                res.violate("file-in-neither-set", f"{when}: file {fol.name}/{x.name} (seen earlier, deleted={x.deleted}) is in "
+                            f"neither files nor deleted_files of its folder")
+                ok = False
+        return ok
+
+    registry_ok("initially")
     for i, op in enumerate(ops):
         k = op[0]
         when = f"op#{i} {op}"
@@ -208,7 +232,7 @@ def run_case(case: Dict) -> CaseResult:
             except Exception as e:  # the property: ticks never break the structure / raise
                 res.violate(f"raise:tick:{exc_sig(e)}", f"{when}: {exc_msg(e)}")
                 break
-            if not check_invariants(fs, res, when):
+            if not check_invariants(fs, res, when) or not registry_ok(when):
                 break
             continue
         # pre-state facts (read through the public getters)
@@ -228,8 +252,13 @@ def run_case(case: Dict) -> CaseResult:
             break
         if status not in ("success", "failure", "unreachable", "pending"):
             res.violate("bad-status", f"{when}: {status}")
-        if not check_invariants(fs, res, when):
+        if not check_invariants(fs, res, when) or not registry_ok(when):
             break
+        # a deleted (or never created) folder is unavailable to further actions: nothing addressed INTO it succeeds
+        # (creating is different: it makes the folder; restoring the folder itself is the way back)
+        if k in ("delete_file", "restore_file", "file_verb", "access") and not pre_folder_live and status == "success":
+            res.violate(f"action-in-nonlive-folder-succeeds:{k}{':deleted' if pre_folder_deleted else ':absent'}",
+                        f"{when}: folder {fo} is not live, yet request {req} -> success")
         # model agreement, unambiguous effects only
         if k == "create_file":
             key = (fo, fi)
